@@ -434,3 +434,5 @@ for _n in ('c02_v5_puback_props128', 'c02_v5_pubrec_props128', 'c02_v5_pubrel_pr
     _by[_n]['props']['C02'] = 'opt'
 for _n in _c11_opt:
     _by[_n]['props']['C11'] = 'opt'
+
+
